@@ -1251,12 +1251,17 @@ class ABCPropertyGraph(ABCPropertyGraphConstants):
 
         props = self.component_sliver_to_graph_properties_dict(component)
         self.add_node(node_id=component.node_id, label=ABCPropertyGraph.CLASS_Component, props=props)
-        self.add_link(node_a=parent_node_id, rel=ABCPropertyGraph.REL_HAS, node_b=component.node_id)
-        nsi = component.network_service_info
-        if nsi is not None:
-            for ns in nsi.network_services.values():
-                self.add_network_service_sliver(parent_node_id=component.node_id,
-                                                network_service=ns)
+        try:
+            self.add_link(node_a=parent_node_id, rel=ABCPropertyGraph.REL_HAS, node_b=component.node_id)
+            nsi = component.network_service_info
+            if nsi is not None:
+                for ns in nsi.network_services.values():
+                    self.add_network_service_sliver(parent_node_id=component.node_id,
+                                                    network_service=ns)
+        except Exception:
+            # don't leave a partially built component behind
+            self.remove_component_with_nss_cps_and_links(node_id=component.node_id)
+            raise
 
     def add_network_service_sliver(self, *, parent_node_id: str, network_service: NetworkServiceSliver):
         """
